@@ -81,6 +81,14 @@ CHECKS.update({
         design="3/C17"),
 })
 
+CHECKS.update({
+    "C08": dict(
+        technique="property-based testing: metamorphic oracle - tree of a clean document vs the same document with 1-3 generated bad-piece insertions; containment computed by the harness' own reverse reachability",
+        text="For clean generated documents, 1-3 faults from a catalogue (bad property in a component, broken new components, incompatible allOf child, optional path parameter, duplicated parameter, unparseable/unsupported body, invalid status, dangling response schema, bad path-item parameter shadowed by one operation) are inserted at random hosts; every file whose owner neither is a host nor reaches one must survive byte-identical, omitted owners must be named by a diagnostic, and what remains must compile, resolve every relative import and import.",
+        note="Affected over-approximates so better containment never alarms; ownership by module-name prefix relies on the safe naming scheme",
+        design="3/C08"),
+})
+
 NOT_YET = {}
 
 def main():
